@@ -254,12 +254,8 @@ void Continuations() {
   SSubscribes<SubscribeInline, SharedFuture<V, E>, V, E>();
   SSubscribes<SubscribeExec, SharedFuture<V, E>, V, E>();
   SSubscribes<SubscribeInline, SharedFutureOn<V, E>, V, E>();
-#ifdef API_PROBE_KNOWN_2
-  // KNOWN_2 (a): SharedFutureOn declares Subscribe(Func&&) but has no `using Base::Subscribe;` (it has `using Base::Detach;
-  // using Base::Then;`), so the inherited Subscribe(IExecutor&, Func&&) is hidden: `shared_future_on.Subscribe(executor, f)` is
-  // "no matching function", although Then(executor, f) works and FutureOn::Detach(executor, f) works.  notes/api_probe.md #2.
+  // the inherited Subscribe(IExecutor&, Func&&) of a SharedFutureOn: hidden before /repo a50f9bd (no `using Base::Subscribe;`), #2
   SSubscribes<SubscribeExec, SharedFutureOn<V, E>, V, E>();
-#endif
   SSubscribes<SubscribeOn, SharedFutureOn<V, E>, V, E>();
 }
 // one method per core shape for the remaining (V, E, U) combinations
@@ -321,13 +317,10 @@ void AsyncContracts() {
        yaclib::AsyncSharedContract<V, E>(Exec(), Fn<void, SharedPromise<V, E>>{}),
        yaclib::AsyncSharedContract<V, E>(Exec(), MutFn<void, SharedPromise<V, E>>{}));
   static_assert(std::is_same_v<decltype(yaclib::AsyncSharedContract<V, E>(Exec(), Fn<void, SharedPromise<V, E>>{})), SharedFutureOn<V, E>>);
-#ifdef API_PROBE_KNOWN_7
-  // KNOWN_7 (a, minor): run.hpp `/*SharedFuture*/ auto AsyncSharedContract(Func&& f)` forgets the `.On(nullptr)` its siblings
-  // Run(f) / RunShared(f) / AsyncContract(f) have and returns a SharedFutureOn (over the inline executor): "conversion from
-  // 'SharedFutureOn<int>' to non-scalar type 'SharedFuture<int>' requested".  notes/api_probe.md #7.
+  // the executor-less form is a SharedFuture like RunShared(f) (it returned a SharedFutureOn before /repo dfc7662), #7
+  static_assert(std::is_same_v<decltype(yaclib::AsyncSharedContract<V, E>(Fn<void, SharedPromise<V, E>>{})), SharedFuture<V, E>>);
   SharedFuture<V, E> no_executor = yaclib::AsyncSharedContract<V, E>(Fn<void, SharedPromise<V, E>>{});
   Sink(no_executor);
-#endif
 }
 template <typename E>
 void Runs() {
@@ -506,11 +499,33 @@ int api_probe_shared(int argc) {
   auto s2 = yaclib::Split(sf.ThenInline([](int x) {
     return yaclib::MakeFuture(x * 2);
   }));
+  // Subscribe(e, f) of a SharedFutureOn (#2, /repo a50f9bd): the callback runs on `other`, not on the future's own executor
+  yaclib::ManualExecutor other;
+  int on_other = 0;
+  sf.Subscribe(other, [&](int x) {
+    on_other = x;
+  });
   std::move(sp).Set(10);
   while (manual.Drain() != 0) {
   }
+  if (on_other != 0 || other.Drain() != 1 || on_other != 10) {
+    return 2;  // it must not have run while only `manual` was drained, and must be the one job of `other`
+  }
   yaclib::Wait(sf, f1, f2, s2);
   sum += std::move(f1).Get().Ok() + std::move(f2).Get().Ok() + s2.Get().Ok() + sf.Get().Ok();
+  // AsyncSharedContract(f) is a SharedFuture fulfilled through the SharedPromise handed to f (#7, /repo dfc7662)
+  yaclib::SharedPromise<int> kept;
+  yaclib::SharedFuture<int> contract = yaclib::AsyncSharedContract<int>([&](yaclib::SharedPromise<int> p) {
+    kept = std::move(p);
+  });
+  yaclib::SharedFuture<int> copy = contract;
+  if (contract.Ready() || !kept.Valid()) {
+    return 3;  // f ran inline and kept the promise: not ready yet
+  }
+  std::move(kept).Set(7);
+  if (!copy.Ready() || copy.Get().Ok() != 7 || std::move(contract).Get().Ok() != 7) {
+    return 4;
+  }
   return sum == 10 + 11 + 10 + 20 + 10 ? 0 : 1;
 }
 
